@@ -2,6 +2,7 @@ package wire
 
 import (
 	"fmt"
+	"net"
 	"os"
 	"path/filepath"
 	"regexp"
@@ -63,6 +64,8 @@ type World struct {
 	// Barriers counts completed barriers, BarrierMisses those that timed out.
 	Barriers, BarrierMisses int
 	ExtraEnv                []string
+	// EgressReady: the egress monitor runs and had caught up with the proxy at the last barrier
+	EgressReady bool
 }
 
 // Opts selects the shape of the standard world.
@@ -199,6 +202,10 @@ func NewWorld(bin, dir string, o Opts) (*World, error) {
 	}
 	p := NewPlan()
 	w := &World{Plan: p, Net: NewNet(), Dir: dir, Bin: bin, BarrierWait: 5 * time.Second}
+	if os.Getenv("VF_IN_NS") == "1" && os.Getenv("VF_SNIFF") != "0" {
+		// private network namespace: every packet on its loopback device belongs to this run
+		w.Net.StartSniffer()
+	}
 	w.Cfg = BuildConfig(p, o)
 	var err error
 	if w.Sentinel, err = w.Net.UDP("sentinel", fmt.Sprintf("%s:%d", p.Sentinel(), SentinelUDP)); err != nil {
@@ -397,7 +404,31 @@ func (w *World) Barrier(p Path) bool {
 	}
 	w.Barriers++
 	w.Net.Drain()
+	w.EgressReady = false
+	if w.Net.Sniffing() {
+		// the egress monitor sees packets in the order they were sent: once it has the relayed
+		// sentinel, it has everything the proxy sent before
+		sent := w.Plan.Sentinel()
+		w.EgressReady = w.Net.WaitEgress(id, func(e *Egress) bool { return e.DstIP == sent }, 2*time.Second)
+	}
 	return true
+}
+
+// FromProxy reports whether a packet was sent by the proxy process (every driver socket is
+// bound to an address of a driver role; the proxy sends from its listener addresses or,
+// for sockets it did not bind to an address, from 127.0.0.1).
+func (w *World) FromProxy(e *Egress) bool {
+	if e.SrcIP == "127.0.0.1" {
+		return true
+	}
+	ip := net.ParseIP(e.SrcIP).To4()
+	return ip != nil && ip[0] == 127 && int(ip[1]) == w.Plan.B && ip[2] < 32
+}
+
+// ToProxy reports whether a packet is addressed to one of the proxy's listener addresses.
+func (w *World) ToProxy(e *Egress) bool {
+	ip := net.ParseIP(e.DstIP).To4()
+	return ip != nil && ip[0] == 127 && int(ip[1]) == w.Plan.B && ip[2] < 32
 }
 
 // IsBarrierID reports whether a case id belongs to a barrier.
